@@ -1,4 +1,87 @@
-From KS Require Import lib.Base lib.Strings model.MetaStore.
+(* C22 — Different topics never share storage or metadata keys.
+   Only statements closed by [exact]; proofs live in proofs/MetaStoreKeys.v.
+   [accepted] is the model of what CreateTopic (and therefore auto-creation, which
+   goes through it) admits with fixes/C22-topic-name-validation.patch applied. *)
+From Coq Require Import String.
+From KS Require Import lib.Base lib.Strings lib.Paths model.MetaStore proofs.MetaStoreProofs proofs.MetaStoreKeys.
 Open Scope Z_scope.
-Example C22_nonvacuous : True.
-Proof. exact I. Qed.
+
+(* acceptance in the model is exactly the validation CreateTopic performs *)
+Theorem C22_created_implies_accepted : forall s n parts rf,
+  (exists k, snd (im_create_topic s n parts rf) = RTopic ENone k) -> accepted n.
+Proof.
+  intros s n parts rf [k H]. unfold im_create_topic in H. unfold accepted.
+  destruct (valid_topic_name n); [reflexivity|]. cbn in H. discriminate.
+Qed.
+Print Assumptions C22_created_implies_accepted.
+
+(* S3 objects, listing prefixes and segment-cache keys, for every namespace, every
+   pair of accepted names, all partitions and base offsets *)
+Theorem C22_accepted_names_isolated : forall ns t t' p p' b b',
+  accepted t -> accepted t' -> (t, p) <> (t', p') ->
+  (segment_key ns t p b <> segment_key ns t' p' b' /\
+   index_key ns t p b <> index_key ns t' p' b' /\
+   segment_key ns t p b <> index_key ns t' p' b' /\
+   index_key ns t p b <> segment_key ns t' p' b') /\
+  (has_prefix (segment_prefix ns t p) (segment_key ns t' p' b') = false /\
+   has_prefix (segment_prefix ns t p) (index_key ns t' p' b') = false) /\
+  cache_key ns t p b <> cache_key ns t' p' b'.
+Proof.
+  intros ns t t' p p' b b' At At' Hne. split; [|split].
+  - exact (s3_objects_disjoint ns t t' p p' b b' At At' Hne).
+  - exact (s3_prefix_free ns t t' p p' b' At At' Hne).
+  - exact (cache_keys_disjoint ns t t' p p' b b' At At' Hne).
+Qed.
+Print Assumptions C22_accepted_names_isolated.
+
+(* etcd key families and the in-memory partition key: injective per family, and no
+   key of another topic under the prefix that DeleteTopic removes *)
+Theorem C22_metadata_keys_isolated : forall t t' p p',
+  accepted t -> accepted t' -> (t, p) <> (t', p') ->
+  offset_key t p <> offset_key t' p' /\
+  partition_state_key t p <> partition_state_key t' p' /\
+  assignment_key t p <> assignment_key t' p' /\
+  partition_key t p <> partition_key t' p' /\
+  (forall g g', coff_key g t p <> coff_key g' t' p') /\
+  (t <> t' ->
+     topic_config_key t <> topic_config_key t' /\
+     has_prefix (topic_delete_prefix t) (offset_key t' p') = false /\
+     has_prefix (topic_delete_prefix t) (partition_state_key t' p') = false /\
+     has_prefix (topic_delete_prefix t) (topic_config_key t') = false).
+Proof.
+  intros t t' p p' At At' Hne.
+  destruct (accepted_facts t At) as (_ & St & _). destruct (accepted_facts t' At') as (_ & St' & _).
+  repeat split.
+  - intros E. apply (offset_key_inj t t' p p' St St') in E as [-> ->]. now apply Hne.
+  - intros E. apply (partition_state_key_inj t t' p p' St St') in E as [-> ->]. now apply Hne.
+  - intros E. apply (assignment_key_inj t t' p p' St St') in E as [-> ->]. now apply Hne.
+  - intros E. apply partition_key_inj in E as [-> ->]. now apply Hne.
+  - intros g g' E. apply coff_key_inj in E as (_ & -> & ->); auto.
+  - intros E. apply (topic_config_key_inj t t' St St') in E. contradiction.
+  - now apply delete_prefix_free.
+  - now apply delete_prefix_free.
+  - now apply delete_prefix_free.
+Qed.
+Print Assumptions C22_metadata_keys_isolated.
+
+(* the defect that the patch removes: with the old acceptance (any non-empty name)
+   the statement is false *)
+Theorem C22_old_acceptance_refuted :
+  exists ns t t' p p' b,
+    valid_topic_name_old t = true /\ valid_topic_name_old t' = true /\ (t, p) <> (t', p') /\
+    (segment_key ns t p b = segment_key ns t' p' b \/
+     has_prefix (segment_prefix ns t' p') (segment_key ns t p b) = true).
+Proof.
+  exists (lit "default"), (lit "a/../b"), (lit "b"), 0, 0, 0.
+  vm_compute. repeat split; try discriminate. now left.
+Qed.
+Print Assumptions C22_old_acceptance_refuted.
+
+Example C22_nonvacuous :
+  accepted (lit "orders") /\ accepted (lit "a.b") /\ accepted (lit "..a") /\
+  ~ accepted (lit "a/../b") /\ ~ accepted (lit "a/0") /\ ~ accepted (lit ".") /\ ~ accepted (lit "..") /\
+  ~ accepted [] /\ ~ accepted (lit "a:b") /\ ~ accepted (repeat 97 250) /\ accepted (repeat 97 249) /\
+  segment_key (lit "ns/x") (lit "orders") 3 42 = lit "ns/x/orders/3/segment-00000000000000000042.kfs" /\
+  segment_prefix [] (lit "orders") 3 = lit "default/orders/3/" /\
+  has_prefix (segment_prefix (lit "default") (lit "a") 0) (segment_key (lit "default") (lit "a/0") 1 0) = true.
+Proof. unfold accepted. vm_compute. repeat split; try reflexivity; intros H; discriminate. Qed.
